@@ -87,3 +87,30 @@ Theorem C03_patient_agreement_partial :
     reach (patient_next cfg) (pair_init cfg) s -> pat_ok cfg s = true.
 Proof. exact pair_patient_ok. Qed.
 Print Assumptions C03_patient_agreement_partial.
+
+(* "Under arbitrary delays and timer expiries the two sides still never disagree for good",
+   on the two-endpoint model (racing mode, PairArb.v): deliveries in either direction, the
+   user's approval or cancel at ANY moment (the moments of the recorded finding included), the
+   deferred goroutines and the expiry of either side's timer at any point relative to all of
+   these - in particular while a frame for the expiring side is in flight.  For every
+   configuration and every reachable state: safety holds; a state in which nothing more can
+   happen is an agreement (both complete on an open connection, or both ended with the
+   transport closed and no timer armed) ... *)
+From Ship Require Import PairArb.
+Theorem C03_racing_agreement_partial :
+  forall (cfg : pcfg) (s : pair),
+    reach (arb_next cfg) (pair_init cfg) s -> arb_ok cfg s = true.
+Proof. exact pair_racing_ok. Qed.
+Print Assumptions C03_racing_agreement_partial.
+
+(* ... and from every reachable state such an agreement can still be reached: no
+   interleaving leads into a region in which the two sides are stuck in disagreement (with a
+   fair scheduler they agree eventually).  Partial: to keep the channels finite a timer expires
+   only when the peer has taken what the expiring side wrote before and at most one frame is in
+   flight towards it (PairArb.expiry_held); unboundedly many expiries against a peer that never
+   reads are covered for a single endpoint only (the two theorems above). *)
+Theorem C03_racing_agreement_stays_reachable_partial :
+  forall (cfg : pcfg) (s : pair),
+    reach (arb_next cfg) (pair_init cfg) s -> can_end pair (arb_next cfg) agreement s.
+Proof. exact pair_racing_can_settle. Qed.
+Print Assumptions C03_racing_agreement_stays_reachable_partial.
